@@ -125,6 +125,7 @@ fn cfg(ctx: &Ctx) -> crate::gen::GenCfg {
 pub fn case(ctx: &Ctx, kind: &str, params: &Value, counting: bool) -> Result<(), Fail> {
 	match kind {
 		"shaped" => check(ctx, &shaped_model(params["i"].as_u64().unwrap_or(0) as usize), "shaped", counting),
+		"large" => check(ctx, &large_model(params["i"].as_u64().unwrap_or(0) as usize), "large_game", counting),
 		"fixture" => match fixture_model(&dna_param(params)) {
 			Some((_, m)) => check(ctx, &m, "fixture", counting),
 			None => Ok(()),
@@ -147,6 +148,9 @@ pub fn run(ctx: &Ctx) -> usize {
 	}
 	let cfg = cfg(ctx);
 	if run_dna(ctx, "dna", ctx.n(60_000, 3_000_000), dna_max(ctx), |dna, counting| check(ctx, &model_from_dna(dna, &cfg), "dna", counting)).is_some() {
+		violations += 1;
+	}
+	if run_enum(ctx, "large", LARGE_CASES, |i| json!({ "i": i }), |i| check(ctx, &large_model(i), "large_game", true)).is_some() {
 		violations += 1;
 	}
 	if fixture_count() > 0 {
